@@ -67,8 +67,12 @@ def register(op):
         for k, (i, m) in enumerate(zip(order, mode)):
             seq, struct = rots[i]
             name = None if m is None else ("N" if m == "same" else f"other{k}")
+            desc = doms(seq)
+            if first is not None and k % 2 == 1:
+                # a description may mix domain objects and plain names (here: names at the even positions, the first included)
+                desc = [x if (x == "+" or j % 2) else str(x) for j, x in enumerate(desc)]
             try:
-                c = K(doms(seq), list(struct), name=name) if name else K(doms(seq), list(struct))
+                c = K(desc, list(struct), name=name) if name else K(desc, list(struct))
                 kind = "object"
             except SingletonError as e:
                 c = e.existing
@@ -79,6 +83,13 @@ def register(op):
             out.append([kind, (c is first) if c is not None else None, ckey(c) if c is not None else None,
                         (hash(c) == hash(first)) if c is not None else None, (c == first) if c is not None else None,
                         c.turns if c is not None else None, c.name if c is not None else None])
+        if first is not None:
+            # canonical form, hash and membership in a set do not move with the representation
+            h0, cf0, held = hash(first), ckey(first), {first}
+            for t in list(range(first.size)) + [0]:
+                first.turns = t
+                if hash(first) != h0 or ckey(first) != cf0 or first not in held:
+                    raise RuntimeError(f"canonical form / hash changed after turns = {t}")
         del keep, c, first
         base_obj = None
         clear_singletons(SubC)
